@@ -7,6 +7,7 @@ from .. import check as CK
 from .. import monitor, pool, tlc
 from . import solverprops
 
+CONVEX_AT_ZERO = {"L1", "WeightedL1", "L1_plus_L2", "L1pos", "WeightedGroupL2", "L2_1"}    # = Degenerate!ConvexAtZero
 MINE = {"finite", "cert", "cert_outer", "zero_col_zero", "explained_error", "terminates", "alive"}
 N = {"quick": 200, "thorough": 4000}
 DEFAULTS = dict(p0="2", max_iter=50, max_epochs=200, tol="1e-5", warm="none", weights="unit", data="tall",
@@ -14,9 +15,9 @@ DEFAULTS = dict(p0="2", max_iter=50, max_epochs=200, tol="1e-5", warm="none", we
 
 
 def _s(solver, datafit, penalty, storage, cols, target="regular", shape="tall", fi=False, strategy="subdiff",
-       greedy=False):
+       greedy=False, warm="none"):
     return dict(solver=solver, datafit=datafit, penalty=penalty, storage=storage, fit_intercept=fi,
-                greedy=greedy, strategy=strategy, cols=cols, target=target, shape=shape)
+                greedy=greedy, strategy=strategy, cols=cols, target=target, shape=shape, warm=warm)
 
 
 # permanent directed placements (each one reproduced a defect of the pinned tree once; DESIGN section 11)
@@ -32,6 +33,18 @@ SENTINELS = [
     _s("GroupProxNewton", "LogisticGroup", "WeightedGroupL2", "dense", ["zero", "zero", "zero", "regular"], fi=True),
     _s("MultiTaskBCD", "QuadraticMultiTask", "L2_1", "csc", ["zero", "dup", "constant", "tiny"], fi=True),
     _s("AndersonCD", "Quadratic", "L1", "csc", ["zero", "big", "tiny", "dup"], fi=True),
+    _s("AndersonCD", "Quadratic", "L1", "dense", ["regular", "zero", "regular", "zero"], fi=True, warm="on_degenerate"),
+    _s("AndersonCD", "Quadratic", "WeightedL1", "csc", ["zero", "regular", "dup", "regular"], warm="on_degenerate"),
+    _s("AndersonCD", "Logistic", "L1", "csc", ["regular", "regular", "zero", "tiny"], fi=True, warm="on_degenerate",
+       strategy="fixpoint"),
+    _s("ProxNewton", "Logistic", "L1", "csc", ["zero", "regular", "regular", "regular"], warm="on_degenerate",
+       strategy="fixpoint"),
+    _s("GroupBCD", "QuadraticGroup", "WeightedGroupL2", "dense", ["zero", "zero", "regular", "regular"],
+       warm="on_degenerate"),
+    _s("MultiTaskBCD", "QuadraticMultiTask", "L2_1", "dense", ["zero", "regular", "zero", "regular"], warm="on_degenerate"),
+    _s("GramCD", "None", "L1", "dense", ["regular", "zero", "regular", "regular"], warm="on_degenerate"),
+    _s("AndersonCD", "Quadratic", "L1", "dense", ["zero", "regular", "regular", "regular"], strategy="fixpoint"),
+    _s("AndersonCD", "Quadratic", "L1", "csc", ["regular", "zero", "regular", "regular"], strategy="fixpoint", fi=True),
 ]
 
 
@@ -42,6 +55,10 @@ def to_scenario(d):
     if sc["penalty"] == "WeightedL1":
         sc["weights"] = "zeros"
     sc["degen"] = dict(cols=list(d["cols"]), target=d["target"], shape=d["shape"])
+    # only where zero is the unique minimiser of the penalty on a null column: for the non-convex penalties a
+    # coefficient in the flat region is a stationary point, and keeping it is legitimate
+    if d.get("warm") == "on_degenerate" and d["solver"] not in ("LBFGS",) and d["penalty"] in CONVEX_AT_ZERO:
+        sc["warm"] = "on_degenerate"
     return sc
 
 
